@@ -361,12 +361,19 @@ def judge(ctx, rows, selftest=True):
         where = "%s%s:%s:%s" % (last[0], "-merge" if last[2] else "", "bzr" if m["remote"] else "local", m["format"])
         for law in failed:
             sig = "law:%s:%s" % (law, where)
+            if law == "completes":
+                # the failing call by exception class; on a pre-2a branch fetch / push / pull are the same copy
+                act = "copy" if m["format"] != "2a" and last[0] in ("fetch", "push", "pull") else last[0] + ("-merge" if last[2] else "")
+                sig = "law:completes:%s:%s:%s:%s" % (o["outcome"].split(":")[-1], act, "bzr" if m["remote"] else "local", m["format"])
             if law == "check":
                 # a problem stays in the repository: it is reported at the step that introduced it, by kind of problem
                 new = new_problems[id(row)]
                 if not new:
                     continue
                 sig = "law:check:%s:%s%s" % ("+".join(sorted({p.split(":")[0] for p in new})), last[0], "-merge" if last[2] else "")
+                files = {f for f in ("a", "b", "l", "root") for p in new if ("id-%s'" % f) in p or (f == "root" and "root-id" in p)}
+                if files and all(added_twice(row["c"]["P"], m["trees"], f) for f in files):
+                    sig += ":file-id-added-twice"      # per-file graph and revision graph differ only for such files
             ctx.violation(sig,
                           "law %s fails after %s on a %s branch stacked on a base holding %s (graph %s): %s" % (
                               law, m["calls"], m["format"], m["base"], row["c"]["P"],
@@ -382,6 +389,19 @@ def judge(ctx, rows, selftest=True):
         ctx.machinery(skipped)
     ctx.cov["selftest_probe_rows_judged_as_expected"] = len(caught)
     ctx.cov["traces_validated_against_impl"] -= len(probes)
+
+
+def added_twice(P, T, f):
+    """Does file id f enter the history more than once (removed and added again, or added by several revisions that start
+    from nothing)?  The root directory ("root") is added by every revision without a present left-hand parent."""
+    n, entries = len(P), 0
+    for k in range(1, len(T) + 1):
+        present = [p for p in P[k - 1] if p <= n]
+        if f == "root":
+            entries += not (P[k - 1] and P[k - 1][0] <= n)
+        elif f in (T[k - 1] or {}) and not any(f in (T[p - 1] or {}) for p in present):
+            entries += 1
+    return entries > 1
 
 
 def selftest_rows(slim):
